@@ -18,6 +18,7 @@ require (
 	deps.dev/util/semver v0.0.0-20241230231135-52b7655a522f
 	golang.org/x/tools v0.29.0
 	google.golang.org/genproto v0.0.0-20230410155749-daa745c078e1
+	google.golang.org/grpc v1.71.1
 	google.golang.org/protobuf v1.36.6
 )
 
@@ -27,7 +28,6 @@ require (
 	golang.org/x/sync v0.12.0 // indirect
 	golang.org/x/sys v0.31.0 // indirect
 	golang.org/x/text v0.23.0 // indirect
-	google.golang.org/grpc v1.71.1 // indirect
 )
 
 replace golang.org/x/sync => golang.org/x/sync v0.10.0
